@@ -475,8 +475,15 @@ var failingCores = []string{
 	"(let [a] 1)", "(continue nosuch:)", "(mdef a)", "(aget 5 0)", "(hf)", "(quote 1 2)", "(quote)",
 	// comparisons of what cannot be compared, at depth
 	"(== [1 [2 \"a\"]] [1 [2 3]])", "(< \"a\" 1)", "(== (hash a: 1) 1)", "(== [1 \"a\"] [1 2])",
+	// a binding that the language refuses elsewhere ((def a "s") over an int), through the multiple-binding form
+	"(let [ty9 1] (def ty9 \"s\"))", "(let [ty9 1] (mdef ty9 tz9 (list 1)))",
+}
+
+// failing forms that define something before they fail (the definition legitimately stays)
+var failingEffCores = []string{
 	// a self-call in tail position with the wrong number of arguments
 	"(begin (defn wa9 [a b] (cond (== a 0) b (wa9 (- a 1) b 99))) (wa9 2 1))", "(begin (defn wb9 [a b] (cond (== a 0) b (wb9 (- a 1)))) (wb9 2 1))",
+	"(begin (func wc9 [n:int64] [r:int64] (cond (== n 0) 0 (wc9 m: (- n 1)))) (wc9 2))",
 }
 
 func (g *progGen) failingForm() string {
@@ -499,6 +506,10 @@ func (g *progGen) failingForm() string {
 		for _, h := range g.hashes {
 			cands = append(cands, fmt.Sprintf("(hset %s a: %s)", h, bad), fmt.Sprintf("(def %s (hash a: %s))", h, bad))
 		}
+		// declarations that fail half-way: whether or not the name was declared before, nothing of it may stay
+		cands = append(cands, "(struct Dog0 [(field Name: string e:0) (field y: nosuchtype e:1)])", "(struct Dog1 [(field y: nosuchtype)])",
+			"(interface Drv0 [(func bad [a:nosuchtype] [])])", "(var v0 nosuchtype)", "(func fn0 [a:nosuchtype] [n:int64] (return 1))",
+			"(method [p: (* Dog0)] bark0 [a:nosuchtype] [n:int64])", "(defmap ranch0 1 2)")
 		if g.havePkg {
 			cands = append(cands, "(set pk0.secret 5)", "{pk0.secret = 6}", "(def pk0 (package \"pk0\" { secret := 2; (defn Get [] (let)) }))", "(pk0.hidden)")
 		}
@@ -512,8 +523,12 @@ func (g *progGen) failingForm() string {
 		return fmt.Sprintf("(defmac %s [x] %s)", m, g.r.Pick([]string{"(let [a] 1)", "(begin 1 (for []))", "(cond 1 2)", "(fn)"}))
 	}
 	// nest the failing core at some depth so that unwinding crosses several re-entry points
+	return g.nest(core, g.r.Intn(4))
+}
+
+func (g *progGen) nest(core string, n int) string {
 	s := core
-	for i, n := 0, g.r.Intn(4); i < n; i++ {
+	for i := 0; i < n; i++ {
 		switch g.r.Intn(9) {
 		case 0:
 			s = fmt.Sprintf("(let [a 1] (+ a %s))", s)
@@ -652,6 +667,9 @@ func (g *progGen) topForm() vmForm {
 			text = g.e(0)
 		}
 	case 6: // natively failing form
+		if g.r.Chance(0.08) {
+			return vmForm{Text: g.r.Pick(failingEffCores), Fail: true, Eff: true}
+		}
 		return vmForm{Text: g.failingForm(), Fail: true}
 	case 7: // macro definition (closed template over its argument and literals)
 		name := fmt.Sprintf("m%d", g.r.Intn(2))
